@@ -435,11 +435,26 @@ func (c *cmp) static(path string, wv, gv reflect.Value, strictDyn bool) error {
 			}
 		}
 	case reflect.Ptr:
+		if ek := wv.Type().Elem().Kind(); ek == reflect.Slice || ek == reflect.Map {
+			// pointer to a container: nil and empty are identified through the pointer too,
+			// and only contents are compared (identity is asserted for objects)
+			we, ge := reflect.Zero(wv.Type().Elem()), reflect.Zero(wv.Type().Elem())
+			if !wv.IsNil() {
+				we = wv.Elem()
+			}
+			if !gv.IsNil() {
+				ge = gv.Elem()
+			}
+			return c.static(path, we, ge, strictDyn)
+		}
 		if wv.IsNil() || gv.IsNil() {
 			if wv.IsNil() != gv.IsNil() {
 				return fail(path, "pointer nil-ness: want nil=%v, got nil=%v", wv.IsNil(), gv.IsNil())
 			}
 			return nil
+		}
+		if wv.Type().Elem() == zoo.TimeType {
+			return c.static(path, wv.Elem(), gv.Elem(), strictDyn)
 		}
 		seen, err := c.bij(path, wv.UnsafePointer(), gv.UnsafePointer())
 		if err != nil || seen {
